@@ -54,6 +54,7 @@ class Cfg:
         self.pad_options = True          # FixedStringPad* options
         self.u64_prefix = True
         self.unique_inline = True
+        self.far_length = True           # fields between a length field and its target
         self.inline_rich = True          # inline objects may hold references, match fields, MetaData-typed fields
         self.meta_pad_attr = True        # padding attributes on MetaData-typed fixed strings
         self.__dict__.update(kw)
@@ -126,7 +127,8 @@ def gen_simple_field(rng, cfg, name, metas, allow_repeat=True, in_inline=False):
     if (cfg.meta_pad_attr and cfg.allow_pad_attr and not in_inline and isinstance(m, dict) and m["kind"] == "fixed"
             and rng.random() < 0.35):
         pad = (rng.choice(["left", "right"]), rng.choice(PADCHARS))
-    return {"kind": "metaref", "name": name, "meta": mname, "named": rng.random() < 0.7, "repeat": rep, "doc": None, "pad": pad}
+    return {"kind": "metaref", "name": name, "meta": mname, "named": rng.random() < 0.7, "repeat": rep,
+            "doc": ("`%s meta doc`" % name) if rng.random() < 0.25 else None, "pad": pad}
 
 
 def gen_program(rng, cfg=None):
@@ -148,7 +150,7 @@ def gen_program(rng, cfg=None):
     # packet 0 is the root; later packets may only reference packets with a larger index (no cycles)
     for i, pn in enumerate(pnames):
         nf = rng.randint(0 if i > 0 else 1, cfg.max_fields)
-        fnames = _names(rng, FLD_NAMES, nf + 4, cfg.odd_names)
+        fnames = _names(rng, FLD_NAMES, nf + 6, cfg.odd_names)
         fields = []
         later = pnames[i + 1:]
         used_len = False
@@ -185,6 +187,10 @@ def gen_program(rng, cfg=None):
                     j += 1
                     fields.append({"kind": "length", "name": lname, "type": rng.choice(UNSIGNED), "target": mname,
                                    "prefixed": rng.random() < 0.5, "doc": None})
+                    if cfg.far_length and rng.random() < 0.3:
+                        # something between the length field and its target
+                        fields.append(gen_simple_field(rng, cfg, fnames[j], metas, allow_repeat=True))
+                        j += 1
                 fields.append({"kind": "match", "name": mname, "key": kname, "pairs": pairs})
             elif cfg.allow_ref and later and r < 0.30:
                 t = rng.choice(later)
@@ -196,7 +202,11 @@ def gen_program(rng, cfg=None):
                                    "target": (fnames[j] if named else t), "prefixed": rng.random() < 0.5, "doc": None})
                     name = fnames[j]
                     j += 1
-                fields.append({"kind": "ref", "name": name if named else t, "packet": t, "named": named, "repeat": rep})
+                    if cfg.far_length and rng.random() < 0.3:
+                        fields.append(gen_simple_field(rng, cfg, fnames[j], metas, allow_repeat=True))
+                        j += 1
+                fields.append({"kind": "ref", "name": name if named else t, "packet": t, "named": named, "repeat": rep,
+                               "doc": ("`%s ref doc`" % t) if rng.random() < 0.3 else None})
             elif cfg.allow_inline and r < 0.40:
                 fields.append(gen_inline(rng, cfg, name, cfg.inline_depth, later, metas))
             elif cfg.allow_checksum and r < 0.47:
@@ -247,8 +257,9 @@ def gen_inline(rng, cfg, name, depth, later=(), metas=()):
             fields.append(gen_inline(rng, cfg, nm, depth - 1, later, metas))
         elif rich and cfg.allow_ref and later and r < 0.35:
             t = rng.choice(list(later))
-            fields.append({"kind": "ref", "name": nm + "Ref", "packet": t, "named": True,
-                           "repeat": cfg.allow_repeat and rng.random() < 0.3})
+            named = rng.random() < 0.7 or any(x.get("name") == t for x in fields)
+            fields.append({"kind": "ref", "name": (nm + "Ref") if named else t, "packet": t, "named": named,
+                           "repeat": cfg.allow_repeat and rng.random() < 0.3, "doc": ("`%s doc`" % nm) if rng.random() < 0.3 else None})
         elif rich and cfg.allow_match and later and r < 0.45:
             ktype = rng.choice(INTS[:6] + (["string"] if cfg.string_keys else []))
             targets = rng.sample(list(later), rng.randint(1, min(2, len(later))))
@@ -322,9 +333,9 @@ def render_field(f, L, ind, with_attrs=True):
     if k in ("scalar", "fixed", "dyn"):
         return s + rep + type_text(f) + L.sp() + f["name"] + doc + ","
     if k == "metaref":
-        return s + rep + f["meta"] + ((L.sp() + f["name"]) if f["named"] else "") + ","
+        return s + rep + f["meta"] + ((L.sp() + f["name"]) if f["named"] else "") + doc + ","
     if k == "ref":
-        return s + rep + f["packet"] + ((L.sp() + f["name"]) if f["named"] else "") + ","
+        return s + rep + f["packet"] + ((L.sp() + f["name"]) if f["named"] else "") + doc + ","
     if k == "inline":
         body = "".join(L.nl(ind + 1) + render_field(x, L, ind + 1, False) for x in f["fields"])
         return s + rep + f["name"] + L.sp() + "{" + body + L.nl(ind) + "},"
